@@ -467,6 +467,8 @@ def rule_fold_threading(ctx: Ctx, clause: str, fn: Func, min_sites: int = 1, rul
             for p in flow.paths(rnode):
                 if p.kind != "return":
                     continue
+                if flow.classify_result(p.value) == "error" or (isinstance(p.value, ast.Call) and flow.dump(p.value.func) == "Failure"):
+                    continue  # an error-carrying fold may abort with (error, None): nothing stale is carried on
                 if not flow.mentions(p.value, acc):
                     bad.append((p, f"returns {flow.dump(p.value)[:80]}, which does not derive from the accumulator `{acc}`"))
                 elif init_name and init_name != acc and flow.mentions(p.value, init_name) and not isinstance(init, ast.Constant):
